@@ -744,6 +744,7 @@ fn cmd_scenario(args: &BTreeMap<String, String>) -> i32 {
         },
         "persist_notice_after_truncation" => scripted::persist_notice_after_truncation(),
         "duplicate_forwarded_read" => scripted::duplicate_forwarded_read(),
+        "elected_with_unreported_membership_entry" => scripted::elected_with_unreported_membership_entry(),
         "persist_notice_covers_two_readies_after_truncation" => scripted::persist_notice_covers_two_readies_after_truncation(),
         "elected_before_persistence_is_reported" => scripted::elected_before_persistence_is_reported(),
         "stale_persist_notice_on_reelected_leader" => scripted::stale_persist_notice_on_reelected_leader(),
